@@ -76,7 +76,7 @@ class NCD(ss.Disease):
         super().init_results()
         self.define_results(
             ss.Result('n_not_at_risk', dtype=int,   label='Not at risk'),
-            ss.Result('prevalence',    dtype=float, label='Prevalence'),
+            ss.Result('prevalence',    dtype=float, scale=False, label='Prevalence'),
             ss.Result('new_deaths',    dtype=int,   label='Deaths'),
         )
         return
